@@ -549,7 +549,7 @@ class Translator:
                     src_ct = self.tm.tname(i[-1]['type']).rstrip(' *').rstrip()
                 except ExtractError:
                     src_ct = None
-                if src_ct != 'c_opaque':
+                if src_ct not in ('c_opaque', None):
                     # the base sub-object is the member verif_base_<Base> of the derived record (record_ctype)
                     path = n.get('path') or []
                     if not path or not src_ct or not src_ct.startswith('struct '):
@@ -761,6 +761,10 @@ class Translator:
         if ct.startswith('struct ') and not kind and not args:
             # an abstraction struct declared by the unit's prelude (typemap): default construction = empty / zero
             return '((%s){ 0 })' % ct
+        key = 'ctor:%s:%d' % (ct, len(args))
+        if key in self.lib:
+            self.cur.stubs.add(self.lib[key])
+            return '%s(%s)' % (self.lib[key], ', '.join(self.lib_arg(a) for a in args))
         self.abort(n, 'construction of %s via %s' % (ct, ctor_t))
     e_CXXTemporaryObjectExpr = e_CXXConstructExpr
 
@@ -1056,6 +1060,23 @@ class Translator:
                 return 'UPTR_VAL(%s)' % A(0)
             if name in ('operator*', 'operator->') and fam in ('std::optional', 'optional') and len(args) == 1:
                 return 'OPT_VAL(%s)' % A(0)
+            if name == 'operator!' and len(args) == 1:
+                try:
+                    ct1 = self.tm.tname(args[0]['type']).rstrip(' *').rstrip()
+                except ExtractError:
+                    ct1 = 'c_opaque'
+                if ct1 == 'c_opaque':
+                    # !stream on an unmodelled stream object: the I/O operation may or may not have failed
+                    self.cur.stubs.add('state of an unmodelled stream (operator!): nondeterministic')
+                    return '({ (void)(%s); _Bool verif_io_failed; verif_io_failed; })' % A(0)
+            if name in ('operator==', 'operator!=', 'operator<', 'operator<=', 'operator>', 'operator>=') and len(args) == 2:
+                try:
+                    cts = [self.tm.tname(a['type']).rstrip(' *').rstrip() for a in args]
+                except ExtractError:
+                    cts = []
+                if cts and all(c in SCALAR_C and c != 'c_opaque' for c in cts):
+                    # a library value type that the unit maps onto a scalar (e.g. std::streampos -> long)
+                    return '(%s %s %s)' % (A(0), name[len('operator'):], A(1))
             key = 'op:%s:%s' % (fam, name)
             if key in self.lib:
                 self.cur.stubs.add(self.lib[key])
@@ -1070,6 +1091,9 @@ class Translator:
                 oct0 = None
             if o.startswith('OPQ_ELEM(') or oct0 == 'c_opaque':
                 fam = '<opaque>'
+            if oct0 in SCALAR_C and oct0 != 'c_opaque' and str(name).startswith('operator ') and not args and rt in SCALAR_C:
+                # conversion operator of a library value type that the unit maps onto a scalar
+                return 'CAST(%s, %s, %s)' % (rt, oct0.replace(' ', '_'), o)
             if fam in ('std::array', 'array'):
                 if name == 'size':
                     kind = self.tm.kinds[self.tm.tname(onode['type']).rstrip(' *')]
@@ -1122,9 +1146,9 @@ class Translator:
                     self.cur.stubs.add('istream::read(buf, n): the first n bytes of buf become arbitrary file content (or stay indeterminate on a short read)')
                     v = a0[9:-1]
                     return 'SRC_READ_VEC(%s, %s)' % (v, self.e(args[1]))
-            if oct_ == 'c_opaque' and name in ('push_back', 'emplace_back', 'reserve', 'clear', 'resize', 'insert', 'seekg', 'seekp', 'close', 'open'):
+            if oct_ in ('c_opaque', None) and name in ('push_back', 'emplace_back', 'reserve', 'clear', 'resize', 'insert', 'seekg', 'seekp', 'close', 'open'):
                 self.cur.dropped.append(('effect of %s() on an unmodelled (opaque) object; its arguments are still evaluated' % name, self._line(n)))
-                return '((void)0%s)' % ''.join(', (void)(%s)' % self.e(a) for a in args if a.get('kind') != 'CXXDefaultArgExpr')
+                return '((void)0%s)' % ''.join(', (void)(%s)' % x for x in (self.e_or_pure_skip(a) for a in args if a.get('kind') != 'CXXDefaultArgExpr') if x)
             # opaque pure getter of a class outside the extraction set
             q = (full or {}).get('_qual', fam + '::' + str(name))
             if any(rx.search(q) for rx in self.opaque_ok):
@@ -1135,7 +1159,11 @@ class Translator:
                 return self.opaque_call(n, q, full, ptr or o, args)
         q = (full or {}).get('_qual', name)
         for rx, macro in self.lib_rx:
-            if rx.search(q):
+            mrx = rx.search(q)
+            if mrx:
+                if '\\' in macro:
+                    # macro name built from the match: \1 .. are replaced by the identifier form of the groups
+                    macro = re.sub(r'\\(\d)', lambda g: ident(mrx.group(int(g.group(1))) or ''), macro)
                 al = []
                 if obj is not None:
                     # the object is passed as an lvalue EXPRESSION (macros have value syntax)
@@ -1146,6 +1174,19 @@ class Translator:
         if any(rx.search(q) for rx in self.opaque_ok):
             return self.opaque_call(n, q, full, None, args)
         self.abort(n, 'call of %s' % q)
+
+    def e_or_pure_skip(self, a):
+        """argument of a call whose effect is dropped: translated for its side effects; an argument that cannot be
+        translated is skipped only if it is side-effect free (no call, assignment, increment)"""
+        try:
+            return self.e(a)
+        except ExtractError:
+            for y in walk(a):
+                k = y.get('kind')
+                if k in ('CallExpr', 'CXXMemberCallExpr', 'CXXOperatorCallExpr', 'CompoundAssignOperator', 'CXXConstructExpr') or \
+                        (k == 'BinaryOperator' and y.get('opcode') == '=') or (k == 'UnaryOperator' and y.get('opcode') in ('++', '--')):
+                    raise
+            return None
 
     def lit_or_expr(self, a):
         """argument of a library macro: a std::string built from a literal is passed as its literal id"""
